@@ -678,15 +678,27 @@ impl WorldC {
             cw_utils::Expiration::AtHeight(h) => {
                 let target = (h + off).saturating_sub(1);
                 if target > b.height {
-                    Some(Step::Block { dh: target - b.height, dt: (target - b.height).saturating_mul(self.cfg.spb) })
+                    Some(Step::Block { dh: target - b.height, dt: (target - b.height).saturating_mul(self.cfg.spb), dn: 0 })
                 } else {
                     None
                 }
             }
             cw_utils::Expiration::AtTime(t) => {
-                let target = (t.seconds() + off).saturating_sub(1);
-                if target > b.time.seconds() {
-                    Some(Step::Block { dh: 1, dt: target - b.time.seconds() })
+                // nanosecond-exact: one second before, one nanosecond before, exactly, one nanosecond after, one second after
+                const S: u64 = 1_000_000_000;
+                let target = match (off, rng.below(3)) {
+                    (0, 0) => t.nanos().saturating_sub(1),
+                    (0, _) => t.nanos().saturating_sub(S),
+                    (1, _) => t.nanos(),
+                    (_, 0) => t.nanos().saturating_add(1),
+                    (_, _) => t.nanos().saturating_add(S),
+                };
+                if target > b.time.nanos() {
+                    let d = target - b.time.nanos();
+                    if d % S != 0 {
+                        self.meter.hit("clock_jump_with_subsecond_part");
+                    }
+                    Some(Step::Block { dh: 1, dt: d / S, dn: d % S })
                 } else {
                     None
                 }
@@ -707,18 +719,22 @@ impl WorldC {
                 let target = (d + off).saturating_sub(1);
                 if target > b.height {
                     let dh = target - b.height;
-                    return Step::Block { dh, dt: dh.saturating_mul(self.cfg.spb) };
+                    return Step::Block { dh, dt: dh.saturating_mul(self.cfg.spb), dn: 0 };
                 }
             } else if !self.deadlines_t.is_empty() {
                 let d = *rng.pick(&self.deadlines_t);
-                let target = (d + off).saturating_sub(1);
-                if target > b.time.seconds() {
-                    return Step::Block { dh: 1, dt: target - b.time.seconds() };
+                if let Some((dt, dn)) = crate::util::jump_around(rng, b.time.nanos(), d) {
+                    return Step::Block { dh: 1, dt, dn };
                 }
             }
         }
         let dh = *rng.pick(&[1u64, 1, 1, 1, 2, 5, 1000]);
-        Step::Block { dh, dt: dh.saturating_mul(self.cfg.spb) }
+        // real block times are not aligned to whole seconds
+        let dn = crate::util::subsecond(rng);
+        if dn != 0 {
+            self.meter.hit("clock_jump_with_subsecond_part");
+        }
+        Step::Block { dh, dt: dh.saturating_mul(self.cfg.spb), dn }
     }
 }
 
@@ -1201,7 +1217,7 @@ impl World for WorldC {
             }
         }
         // setup is over: the simulated history starts in a fresh block
-        w.apply_inner(&Step::Block { dh: 1, dt: cfg.spb }, &mut pend);
+        w.apply_inner(&Step::Block { dh: 1, dt: cfg.spb, dn: 0 }, &mut pend);
         w.pending = pend;
         w
     }
@@ -1216,7 +1232,7 @@ impl World for WorldC {
 
     fn gen_step(&mut self, rng: &mut Rng) -> Step {
         if !self.group_ok {
-            return Step::Block { dh: 1, dt: self.cfg.spb };
+            return Step::Block { dh: 1, dt: self.cfg.spb, dn: 0 };
         }
         if let Some(s) = self.queue.pop_front() {
             return s;
@@ -1250,7 +1266,7 @@ impl World for WorldC {
                     self.gen_block(rng)
                 } else {
                     // most runs separate every transaction by a block, like the existing tests do
-                    Step::Block { dh: 1, dt: self.cfg.spb }
+                    Step::Block { dh: 1, dt: self.cfg.spb, dn: 0 }
                 }
             }
         }
@@ -1326,8 +1342,8 @@ impl WorldC {
                 let evs = self.chain.events(&r);
                 self.after_tx(&evs, &r, &members_before, out);
             }
-            Step::Block { dh, dt } => {
-                self.chain.advance(*dh, *dt);
+            Step::Block { dh, dt, dn } => {
+                self.chain.advance_ns(*dh, *dt, *dn);
                 self.meter.sim_blocks += dh;
                 self.meter.sim_seconds += dt;
                 if *dh > 0 {
